@@ -228,13 +228,13 @@ func RunSoloJob(seed int64, idx int) {
 }
 
 type c14State struct {
-	mu      sync.Mutex
-	solo    map[int]JobResult
-	plain   string
-	seed    int64
-	kwSnap  map[string]token.Type
+	mu       sync.Mutex
+	solo     map[int]JobResult
+	plain    string
+	seed     int64
+	kwSnap   map[string]token.Type
 	precSnap map[token.Type]int
-	orders  map[string]bool
+	orders   map[string]bool
 }
 
 func c14(t *fw.T) *c14State { return t.W.State["c14"].(*c14State) }
@@ -327,9 +327,9 @@ func runC14Round(t *fw.T) {
 		return
 	}
 	type obs struct {
-		job  int
-		res  JobResult
-		seq  int64
+		job int
+		res JobResult
+		seq int64
 	}
 	results := make([][]obs, G)
 	var counter atomic.Int64
